@@ -27,10 +27,18 @@ def main():
         row = {}
         t0 = time.time()
         try:
-            for cid in IDS:
+            def one(cid):
                 rc, o = sh(f'./check {cid} quick')
                 keys = sorted({l.split('key=')[1].split(' ::')[0] for l in o.splitlines() if l.startswith('violation[')})
-                row[cid] = {'exit': rc, 'keys': keys[:6]}
+                return cid, {'exit': rc, 'keys': keys[:6]}
+            # the first check builds the harness against the changed tree; the rest run four at a time
+            # (C18 has its own builds)
+            cid, r = one(IDS[7])
+            row[cid] = r
+            import concurrent.futures
+            with concurrent.futures.ThreadPoolExecutor(max_workers=4) as ex:
+                for cid, r in ex.map(one, ['C18', 'C05', 'C10', 'C17', 'C01', 'C12', 'C19'] + [c for c in IDS if c not in ('C08', 'C18', 'C05', 'C10', 'C17', 'C01', 'C12', 'C19')]):
+                    row[cid] = r
         finally:
             sh('git checkout -- . && git clean -fdq -e target', '/repo')
         matrix[name] = row
